@@ -1392,10 +1392,18 @@ def explore_item(item, acc, limit=None):
         acc.count("capped")
     if n >= 2:
         acc.nt(repr(item))
-    for sizes, verdict in s.verdicts:
-        for sig, detail in verdict:
-            acc.violation(*finish_violation(sig, detail, item, n))
+    add_violations(acc, s.verdicts, item, n)
     return s
+
+
+def add_violations(acc, verdicts, item, n):
+    """Smallest failing execution per signature of this item (never let one noisy item crowd out others)."""
+    found = []
+    for sizes, verdict in verdicts:
+        for sig, detail in verdict:
+            found.append(finish_violation(sig, detail, item, n))
+    acc.count("violations_raw", len(found))
+    acc.violations.extend(smallest_per_signature(found))
 
 
 def finish_violation(sig, detail, item, n):
@@ -1406,6 +1414,10 @@ def finish_violation(sig, detail, item, n):
         # one class: the v1/v2 tuple encoding has no escaping, whatever the symptom is afterwards
         d["symptom"] = sig.split(":", 1)[1]
         sig = sig.split(":", 1)[0] + ":not-round-tripped"
+    elif sig.startswith("socket-medium[unknown-verb]:") and "serve-terminated" not in sig:
+        # bytes after an unknown v1/v2 verb are dropped; how the loss shows depends on where the recv was cut
+        d["symptom"] = sig.split(":", 1)[1]
+        sig = "socket-medium[unknown-verb]:following-request-lost"
     return sig, d
 
 
